@@ -277,3 +277,54 @@ pub proof fn lemma_root_rem_repr(lo0: int, lo1: int, hi: int, n0: int, ulow: int
     assert((ulow + c1 * ph) * pk == pk * ulow + c1 * (pk * ph)) by (nonlinear_arith);
     assert((c1 - e - bo) * pn == c1 * pn - e * pn - bo * pn) by (nonlinear_arith);
 }
+
+/// (H·y) div (2H) = y div 2
+pub proof fn lemma_root_half_scaled(hh: int, y: int)
+    requires hh >= 1,
+    ensures (hh * y) / (2 * hh) == y / 2,
+{
+    let v = y / 2;
+    let t = y % 2;
+    assert(hh * y == v * (2 * hh) + hh * t) by (nonlinear_arith) requires y == 2 * v + t;
+    assert(0 <= hh * t < 2 * hh) by (nonlinear_arith) requires 0 <= t <= 1, hh >= 1;
+    let x = hh * y; let d = 2 * hh; let r = hh * t;
+    assert(x / d == v) by (nonlinear_arith) requires x == v * d + r, 0 <= r < d, d >= 1;
+}
+
+pub proof fn lemma_pw_step(k: int)
+    requires k >= 1,
+    ensures pw(k) == B() * pw(k - 1), pw(k - 1) >= 1,
+{
+    lemma_pw_pos(k - 1);
+}
+
+/// the correction step on values:  R' = R + 2 s − 1 and s' = s − 1, with the carries of the in-place operations
+///   b0 = val(b) before (s = b0 + qt·P), b1 + ov·B^n = b0 + qt·P·... (the carry word q_top added at weight P),
+///   lo1 + kk·B^n = lo0 + 2 b1,  lo2 − bw·B^n = lo1 − 1,  b2 − bo·B^n = b1 − 1
+pub proof fn lemma_root_correction(lo0: int, lo1: int, lo2: int, c3: int, kk: int, ov: int, bw: int, bo: int,
+    bv1: int, bv2: int, s: int, rr: int, pn: int)
+    requires rr == lo0 + c3 * pn, bv1 + ov * pn == s, lo1 + kk * pn == lo0 + 2 * bv1, lo2 - bw * pn == lo1 - 1,
+        bv2 - bo * pn == bv1 - 1,
+    ensures lo2 + (c3 + kk + 2 * ov - bw) * pn == rr + 2 * s - 1, bv2 + (ov - bo) * pn == s - 1,
+{
+    assert((c3 + kk + 2 * ov - bw) * pn == c3 * pn + kk * pn + 2 * (ov * pn) - bw * pn) by (nonlinear_arith);
+    assert((ov - bo) * pn == ov * pn - bo * pn) by (nonlinear_arith);
+}
+
+/// 0 <= v + d·P < P with 0 <= v < P  ==>  d == 0
+pub proof fn lemma_root_no_wrap(v: int, d: int, p: int)
+    requires 0 <= v < p, 0 <= v + d * p < p,
+    ensures d == 0,
+{
+    assert(-1 < d < 1) by (nonlinear_arith) requires -p < d * p, d * p < p, p > 0;
+}
+
+/// s = s1·P + q < B^n when s1 < B^h, q <= P  (and s >= 1 when 2 s1 >= B^h >= 2)
+pub proof fn lemma_root_s_range(s1: int, q: int, pk: int, ph: int, pn: int, s: int)
+    requires s == s1 * pk + q, 0 <= s1 < ph, 0 <= q <= pk, pn == pk * ph, 2 * s1 >= ph, ph >= 2, pk >= 1,
+    ensures 1 <= s <= pn,
+{
+    assert(s1 * pk <= (ph - 1) * pk) by (nonlinear_arith) requires s1 <= ph - 1, pk >= 1;
+    assert((ph - 1) * pk == pk * ph - pk) by (nonlinear_arith);
+    assert(s1 * pk >= 1) by (nonlinear_arith) requires s1 >= 1, pk >= 1;
+}
